@@ -179,13 +179,17 @@ def handleFlag (cfg : Cfg) (c : Core) : Core × Act :=
   match c.frame with
   | none => (startFrame c, .cont)
   | some f =>
-    if f.len = 0 then (c, .cont)
+    if f.len = 0 then ({ c with raw := [], unescapeNext := false }, .cont)
     else if f.hcs.isNone then (gotoHunt c, .hunt)
     else if cfg.abort && decide (c.raw.length > 1) && (c.raw.getLast? == some escOctet) then
       (gotoHunt c, .hunt)
     else if cfg.stuffing then (c, .complete)
     else if f.isExpectedLength then (c, .complete)
-    else (appendToFrame cfg c f flagOctet, .cont)
+    else
+      let c1 := appendToFrame cfg c f flagOctet
+      match c1.frame with
+      | some f1 => if f1.len > maxFrameLen then (gotoHunt c1, .hunt) else (c1, .cont)
+      | none => (c1, .cont)
 
 /-- `_read_next`, for the popped octet `x` -/
 def readNext (cfg : Cfg) (c : Core) (x : Nat) : Core × Act :=
@@ -243,7 +247,7 @@ theorem length_dropWhile_le (p : Nat → Bool) (l : List Nat) : (l.dropWhile p).
 
 /-- the `while self._buffer.is_available:` loop of `read()` -/
 def loop (cfg : Cfg) (c : Core) (b : Buf) (out : List Frame) : Core × Buf × List Frame :=
-  match h : b.inp with
+  match _h : b.inp with
   | [] => (c, b, out)
   | x :: rest =>
     let b1 : Buf := { consumed := b.consumed + 1, inp := rest }   -- `pop()`
@@ -254,7 +258,7 @@ def loop (cfg : Cfg) (c : Core) (b : Buf) (out : List Frame) : Core × Buf × Li
 termination_by b.inp.length
 decreasing_by
   all_goals simp_wf
-  all_goals (try simp only [h, Buf.trimToPos, Buf.trimToFlagOrEnd, List.length_cons])
+  all_goals (try simp only [_h, Buf.trimToPos, Buf.trimToFlagOrEnd, List.length_cons])
   all_goals first
     | omega
     | (have := length_dropWhile_le notFlag rest; omega)
